@@ -414,8 +414,9 @@ def execute(plan, prop, out, tr):
             solver.inner = opt.solver
             strat = StrategyProxy(real, model)
             opt.solver, opt.strategy = solver, strat
-            st = {"kind": type(real).__name__, "down": getattr(real, "down", None), "min": getattr(real, "min", None),
-                  "max": getattr(real, "max", None)}
+            # the documented defaults of LM's default strategy: TrustRegion(radius=1e6, high=.5, low=1e-3, up=2, down=.5,
+            # factor=.5, min=1e-6, max=1e16); taken from the documentation, not read back from the object
+            st = {"kind": "TrustRegion", "down": 0.5, "min": 1e-6, "max": 1e16}
             c = dict(c, min=1e-6, max=1e32, strategy=st)
             out.probe("ctor-defaults")
         else:
